@@ -28,10 +28,16 @@ type Solver struct {
 	log     io.Writer
 
 	// incremental state: one solver frame per path-condition conjunct
-	frames   []sframe
-	have     map[string]int // defined name -> frame index
-	declared map[string]int // declared var -> frame index
+	frames       []sframe
+	have         map[string]int // defined name -> frame index
+	declared     map[string]int // declared var -> frame index
+	sinceRestart int
 }
+
+var restartEvery = 150
+
+// phase timers (debug)
+var PhaseBuild, PhaseSat time.Duration
 
 type sframe struct {
 	root string
@@ -64,6 +70,7 @@ func (s *Solver) start() error {
 	s.in = in
 	s.out = bufio.NewReaderSize(out, 1<<16)
 	s.frames = nil
+	s.sinceRestart = 0
 	s.have = map[string]int{}
 	s.declared = map[string]int{}
 	if strings.Contains(s.argv[0], "z3") {
@@ -102,6 +109,10 @@ func (s *Solver) Check(vars []*Term, asserts []*Term) (SatResult, []uint64) {
 	t0 := time.Now()
 	defer func() { s.Time += time.Since(t0) }()
 	s.Queries++
+	if s.sinceRestart++; s.sinceRestart >= restartEvery {
+		// z3's incremental mode slows down as popped definitions accumulate
+		s.restart()
+	}
 	if len(asserts) == 0 {
 		s.Sat++
 		return ResSat, make([]uint64, len(vars))
@@ -160,7 +171,17 @@ func (s *Solver) Check(vars []*Term, asserts []*Term) (SatResult, []uint64) {
 		s.Unknown++
 		return ResUnknown, nil
 	}
+	tBuild := time.Since(t0)
 	line, err := s.readLine()
+	tSat := time.Since(t0) - tBuild
+	PhaseBuild += tBuild
+	PhaseSat += tSat
+	if debugOn && time.Since(t0) > 20*time.Millisecond {
+		fmt.Fprintf(os.Stderr, "gosx: slow query %d: %d bytes, %d frames, %v -> %s\n", s.Queries, sb.Len(), len(s.frames), time.Since(t0), line)
+		if os.Getenv("GOSX_DUMPQ") != "" {
+			os.WriteFile(fmt.Sprintf("/tmp/slowq_%d.smt2", s.Queries), []byte(sb.String()), 0644)
+		}
+	}
 	if err != nil {
 		s.restart()
 		s.Unknown++
